@@ -758,7 +758,9 @@ impl DtlsInner {
                         (msg, raw_msg)
                     };
 
-                    ctx.recv_message_seq += 1;
+                    // 16-bit counter: a peer can feed 65536 in-order messages before the
+                    // handshake deadline; wrap like message_seq itself instead of overflowing.
+                    ctx.recv_message_seq = ctx.recv_message_seq.wrapping_add(1);
 
                     if processing_msg.msg_type != HandshakeType::Finished
                         && processing_msg.msg_type != HandshakeType::HelloRequest
